@@ -73,6 +73,10 @@ type Net struct {
 	// lands in the middle of an operation of that router (a link going away while the router
 	// walks over its links).
 	BeforeSend func(l *Link, f frame.Frame)
+	// AfterSend is called, with no lock held, on the goroutine of the router that has handed
+	// a frame to a link, after the frame is on its way: the place to let time pass between two
+	// steps of an operation of that router (between the frames of one announcement round).
+	AfterSend func(l *Link, mt frame.MessageType, src netip.Addr)
 
 	ParseErrors int
 	Delivered   int
@@ -158,6 +162,16 @@ func (l *Link) send(f frame.Frame, prio bool) error {
 	if h := l.net.BeforeSend; h != nil {
 		h(l, f)
 	}
+	if h := l.net.AfterSend; h != nil {
+		mt, src := f.MessageType(), f.SrcIP()
+		err := l.send1(f, prio)
+		h(l, mt, src)
+		return err
+	}
+	return l.send1(f, prio)
+}
+
+func (l *Link) send1(f frame.Frame, prio bool) error {
 	// What the shipped writer does at the boundary: take the frame including
 	// the link-layer margins (the link header and MAC are written there), then
 	// release it. A frame without room for the margins is lost, exactly as on a
